@@ -247,6 +247,10 @@ MonStep(m, ev) ==
   CASE ev.ev = "N" -> MonNew(m, ev)
     [] ev.ev = "D" -> MonDecode(m, ev)
     [] ev.ev = "L" -> MonLatin1(m, ev)
-    [] ev.ev = "F" -> IF m.desync THEN m ELSE [AddViols(m, <<"C08.livelock">>) EXCEPT !.desync = TRUE]
+    \* the harness gave up after 8 * units + 64 calls of the documented loop: judged even when the history is
+    \* already desynchronised (non-termination is a fact about the real code, whatever else went wrong before)
+    [] ev.ev = "F" -> [AddViols(m, <<"C08.livelock">>) EXCEPT !.desync = TRUE]
+    \* guard-page fault: the process died with a signal inside this history (access beyond a caller buffer)
+    [] ev.ev = "G" -> [AddViols(m, <<"C06.fault">>) EXCEPT !.desync = TRUE]
     [] OTHER -> AddViols(m, <<"proto.unknown-event">>)
 =============================================================================
